@@ -1384,8 +1384,25 @@ impl Peers {
     ) -> Result<(), Status> {
         if let Some(mut peer) = self.inner.get_mut(&index) {
             let has_reorg = !state.reorg_last_headers.is_empty();
+            // The cached filter hashes were answered for the chain of the previous prove state.
+            // A proof whose start was moved back to a remembered header has no reorg headers even
+            // if the peer switched to another branch meanwhile (and a prove state copied from
+            // another peer needn't tell anything about this peer's previous chain): keep the
+            // cache only if the previous proven header is known to be an ancestor of the new one.
+            let extends_previous = peer
+                .state
+                .get_prove_state()
+                .map(|previous| {
+                    let previous_hash = previous.get_last_header().header().hash();
+                    state.get_last_header().header().hash() == previous_hash
+                        || state
+                            .get_last_headers()
+                            .iter()
+                            .any(|header| header.hash() == previous_hash)
+                })
+                .unwrap_or(true);
             peer.state = peer.state.take().receive_last_state_proof(state)?;
-            if has_reorg {
+            if has_reorg || !extends_previous {
                 peer.latest_block_filter_hashes.clear();
             }
         }
